@@ -288,6 +288,26 @@ func local() []cat.Program {
 			},
 			Data: map[string]vals.V{"who": s("xleWHO")}},
 
+		// same-named struct types with permuted tagged fields (see rows_test.go)
+		rowTwin("x-rows-a", "xraWHO", kRowsA, rowDesc{7, "ann", "na"}, rowDesc{8, "bob", ""}, rowDesc{1, "cy", "nc"}),
+		rowTwin("x-rows-b", "xrbWHO", kRowsB, rowDesc{1, "alpha", ""}, rowDesc{2, "beta", "nb"}),
+		rowTwin("x-rows-c", "xrcWHO", kRowsC, rowDesc{3, "gamma", "ng"}, rowDesc{0, "delta", "nd"}, rowDesc{5, "eps", ""}),
+		// a registered node processor that edits attribute values in place (engine option "proc")
+		{Name: "x-proc-stamp", Opts: []string{"proc"}, Canary: "xpsWHO", Feat: []string{"processor", "include", "v-for"},
+			Files: map[string]string{
+				"page.vuego": `<header><img src="/img/logo.png" alt="logo"><a href="/home" :title="who">home</a><a :href="link" data-stamp="s">bound</a></header>` +
+					`<ul><li v-for="r in rows"><img src="/img/row.png" :alt="r"><a href="/row" class="k" id="x" lang="en">{{ r }}</a></li></ul>` +
+					`<p v-if="flag"><img src="/img/if.png"></p><p v-else><img src="/img/else.png"></p><template include="components/xps-foot.vuego" :who="who"></template>` + end,
+				"components/xps-foot.vuego": `<footer><a href="/foot" :title="who">foot {{ who }}</a><img src="/img/foot.png"></footer>`,
+			},
+			Data: map[string]vals.V{"who": s("xpsWHO"), "link": s("/bound"), "flag": b(true), "rows": strs("p1", "p2")}},
+		{Name: "x-proc-stamp-layout", FileOnly: true, Opts: []string{"proc"}, Canary: "xplWHO", Feat: []string{"processor", "layout", "front-matter"},
+			Files: map[string]string{
+				"page.vuego":          "---\nlayout: shell\ntitle: T-xpl\n---\n" + `<article><img src="/img/page.png"><a href="/page">{{ who }}</a></article>`,
+				"layouts/shell.vuego": `<main><img src="/img/shell.png" alt="s"><a href="/shell" :title="title">{{ title }}</a><div v-html="content"></div></main>` + end,
+			},
+			Data: map[string]vals.V{"who": s("xplWHO")}},
+
 		// retype twins: DIFFERENT files with the SAME template text (so the same expression texts)
 		// whose data gives the same names differently typed values; on the shared engine they meet
 		// in both orders. Only expressions that are valid for every typing are used here.
@@ -612,7 +632,12 @@ func goData(p cat.Program, k int) map[string]any {
 	}
 	out := map[string]any{}
 	for key, v := range p.Data {
-		out[key] = variant(v, k).Go()
+		vv := variant(v, k)
+		if g, local := localGo(vv); local {
+			out[key] = g
+		} else {
+			out[key] = vv.Go()
+		}
 	}
 	return out
 }
